@@ -38,7 +38,8 @@ DEV_ASSIGN = False
 BUDGET = dict(quick=60, thorough=600)
 
 BASE = dict(W=2, NSplits=2, NRecs=2, KeyDigits=1221, OwnerDigits=12, B=1, MaxCkpt=2, MaxKills=2, KillJob=True,
-            MaxLen=100000, StopAtDone=False, KillDilution=8, Dev_AssignUnsorted=False)
+            MaxLen=100000, StopAtDone=False, KillDilution=8, Dev_AssignUnsorted=False,
+            Rescale="@{}", G=0, GroupDigits=0, Overlap=False)   # no rescale, no overlapping publication: c01_deep.py
 
 
 def exhaustive(c, consts, label, timeout=1500):
